@@ -129,7 +129,7 @@ pub fn c10(tier: Tier) -> i32 {
             items.push((n, w));
         }
     }
-    let tot = par_sweep(items.len() as u64, 1, |idx, l| {
+    let mut tot = par_sweep(items.len() as u64, 1, |idx, l| {
         let (n, w) = items[idx as usize];
         let seq: Vec<u8> = (0..n).map(filler).collect();
         let mut bad = |entry: &str, why: String, l: &mut Local| {
@@ -262,11 +262,109 @@ pub fn c10(tier: Tier) -> i32 {
             l.samples.push(json!({"seq": esc(&seq), "width": w, "write_wrap_seq": esc(&whole_wrapped), "chunkings": chunkings_of(&seq).len()}));
         }
     });
+    // long sequences: lengths around 256 / 512 and beyond, chunk boundaries and widths at and around
+    // these sizes (a menu of cut points instead of all compositions), through the chunk-taking entry
+    // points and through records parsed from input laid out with the same line lengths
+    let long_lens: &[usize] = if tier == Tier::Quick { &[255, 256, 257, 300, 513, 700] } else { &[63, 64, 65, 255, 256, 257, 300, 511, 512, 513, 700, 1025, 4097, 70_000] };
+    let t_long = par_sweep(long_lens.len() as u64, 1, |idx, l| {
+        let n = long_lens[idx as usize];
+        let seq: Vec<u8> = (0..n).map(filler).collect();
+        let head: &[u8] = b"id d";
+        let wv = |f: &dyn Fn(&mut dyn std::io::Write) -> std::io::Result<()>| -> Vec<u8> {
+            let mut v = vec![];
+            f(&mut v).unwrap();
+            v
+        };
+        let mut cuts: Vec<usize> = vec![1, 2, 4, 63, 64, 65, 255, 256, 257, 511, 512, 513, n / 2, n - 1];
+        cuts.retain(|&c| c > 0 && c < n);
+        cuts.sort();
+        cuts.dedup();
+        let mut chunkings: Vec<Vec<&[u8]>> = vec![vec![&seq[..]]];
+        for (i, &a) in cuts.iter().enumerate() {
+            chunkings.push(vec![&seq[..a], &seq[a..]]);
+            chunkings.push(vec![&seq[..a], &seq[a..a], &seq[a..]]);
+            for &b in &cuts[i + 1..] {
+                chunkings.push(vec![&seq[..a], &seq[a..b], &seq[b..]]);
+            }
+        }
+        // regular line lengths as well (the shape of real files)
+        for ll in [60usize, 70, 80, 256] {
+            chunkings.push(seq.chunks(ll).collect());
+        }
+        let mut widths: Vec<usize> = vec![1, 60, 70, 255, 256, 257, n - 1, n, n + 1];
+        widths.sort();
+        widths.dedup();
+        let whole_plain = wv(&|o| fasta::write_seq(o, &seq));
+        let want = vec![(head.to_vec(), seq.clone())];
+        let mut bad = |entry: &str, why: String, l: &mut Local| {
+            l.violation(Violation {
+                property: "C10".into(),
+                sig: format!("{}|long", entry),
+                detail: format!("sequence of {} positional letters: {}: {}", n, entry, why),
+                weight: (1_000_000 + n) as u64,
+                replay: json!({"kind": "writer", "entry": entry, "seq_len": n}),
+            });
+        };
+        for chunks in &chunkings {
+            let lens: Vec<usize> = chunks.iter().map(|c| c.len()).collect();
+            l.evals += 1;
+            l.nontrivial += 1;
+            l.count("long_sequence_cases", 1);
+            let it_plain = wv(&|o| fasta::write_seq_iter(o, chunks.iter().cloned()));
+            if it_plain != whole_plain {
+                bad("write_seq_iter", format!("chunks of lengths {:?} give a different output than the whole sequence (first difference at byte {:?})", lens, it_plain.iter().zip(&whole_plain).position(|(a, b)| a != b)), l);
+            }
+            // a record parsed from input with these line lengths
+            for crlf in [false, true] {
+                let nl: &[u8] = if crlf { b"\r\n" } else { b"\n" };
+                let mut input: Vec<u8> = b">".to_vec();
+                input.extend_from_slice(head);
+                input.extend_from_slice(nl);
+                for c in chunks.iter().filter(|c| !c.is_empty()) {
+                    input.extend_from_slice(c);
+                    input.extend_from_slice(nl);
+                }
+                for via_set in [false, true] {
+                    let mut rdr = fasta::Reader::with_capacity(&input[..], 64);
+                    let mut set = fasta::RecordSet::default();
+                    let o1 = if via_set {
+                        rdr.read_record_set(&mut set).unwrap().unwrap();
+                        let rec = (&set).into_iter().next().unwrap();
+                        wv(&|o| rec.write(o))
+                    } else {
+                        let rec = rdr.next().unwrap().unwrap();
+                        wv(&|o| rec.write(o))
+                    };
+                    l.evals += 1;
+                    l.nontrivial += 1;
+                    if let Err(e) = parse_back_fasta(&o1, &want) {
+                        bad("RefRecord::write", format!("record with lines of lengths {:?} (crlf {}, from a record set {}): {}", lens, crlf, via_set, e.chars().take(300).collect::<String>()), l);
+                    }
+                }
+            }
+            for &w in &widths {
+                l.evals += 1;
+                l.nontrivial += 1;
+                let whole_wrapped = wv(&|o| fasta::write_wrap_seq(o, &seq, w));
+                let it_wrap = wv(&|o| fasta::write_wrap_seq_iter(o, chunks.iter().cloned(), w));
+                if it_wrap != whole_wrapped {
+                    bad("write_wrap_seq_iter", format!("chunks of lengths {:?} at width {} give a different output than the whole sequence (first difference at byte {:?})", lens, w, it_wrap.iter().zip(&whole_wrapped).position(|(a, b)| a != b)), l);
+                }
+                let mut full = wv(&|o| fasta::write_head(o, head));
+                full.extend_from_slice(&whole_wrapped);
+                if let Err(e) = parse_back_fasta(&full, &want).and_then(|_| wrap_invariants(&full, w)) {
+                    bad("write_wrap_seq", format!("width {}: {}", w, e.chars().take(300).collect::<String>()), l);
+                }
+            }
+        }
+    });
+    println!("  long sequences: {} lengths, {} cases, {:.1}s", long_lens.len(), t_long.evals, t_long.wall_s);
+    tot.merge(t_long);
     finish(
         Report {
             property: "C10".into(),
             tier: tier.name().into(),
-            rule: format!("sequences = first n positional letters, n = 0..{}; every wrap width 1..n+2; {} headers (fixed menu: empty, spaces leading/trailing/multiple, '>' inside, non-UTF-8, CR inside / leading; plus ALL headers of <= 3 bytes over {{space, TAB, CR, letter, non-UTF-8 byte, '>', '@', '+'}} not ending in CR); entry points write_to, write_parts, write_wrap, write_head, write_id_desc, write_seq, write_wrap_seq, write_seq_iter, write_wrap_seq_iter, OwnedRecord::{{write,write_wrap}}, RefRecord::{{write,write_wrap}} (RefRecord parsed from every line splitting of the sequence, LF and CRLF); ALL 2^(n-1) compositions of the sequence into chunks, each also with 1-2 empty chunks inserted at every position; oracle: output parses back (reference parser and real reader) to (header, sequence), 2-3 records back to back parse to the list, wrapped lines <= width and all but the last = width, chunked output = whole output byte for byte (n >= 1); every call repeated into a writer that accepts only 1 or 3 bytes per write(): same bytes", maxn, heads_v.len()),
+            rule: format!("sequences = first n positional letters, n = 0..{}; every wrap width 1..n+2; {} headers (fixed menu: empty, spaces leading/trailing/multiple, '>' inside, non-UTF-8, CR inside / leading; plus ALL headers of <= 3 bytes over {{space, TAB, CR, letter, non-UTF-8 byte, '>', '@', '+'}} not ending in CR); entry points write_to, write_parts, write_wrap, write_head, write_id_desc, write_seq, write_wrap_seq, write_seq_iter, write_wrap_seq_iter, OwnedRecord::{{write,write_wrap}}, RefRecord::{{write,write_wrap}} (RefRecord parsed from every line splitting of the sequence, LF and CRLF); ALL 2^(n-1) compositions of the sequence into chunks, each also with 1-2 empty chunks inserted at every position; oracle: output parses back (reference parser and real reader) to (header, sequence), 2-3 records back to back parse to the list, wrapped lines <= width and all but the last = width, chunked output = whole output byte for byte (n >= 1); every call repeated into a writer that accepts only 1 or 3 bytes per write(): same bytes; PLUS long sequences (lengths 255, 256, 257, 300, 513, 700; thorough up to 70 000) with a menu of cut points at and around 64/256/512 (all 2- and 3-part splits over the menu, an empty chunk, regular lines of 60/70/80/256) and widths 1, 60, 70, 255-257, n-1..n+1: write_seq_iter / write_wrap_seq_iter = whole-sequence output, RefRecord::write of the record parsed from input with these line lengths (LF/CRLF, from next() and from a record set) parses back", maxn, heads_v.len()),
             exhaustive: true,
             assumptions: vec!["sequence bytes are positional letters (no LF, CR, '>'); the writers never inspect sequence bytes".into()],
             extra: json!({"states_note": "states = (sequence length, width, header, entry point, chunking) cases; transitions = writer calls"}),
